@@ -100,7 +100,7 @@ def h09a(c, max_frags=1):
             market.place_order(A, force=True)
             pkg = fl.handler_queue.pop()
         # order B on another runner
-        own_af = c.pick("own_adjustment_factor", [5.0, 20.0, 37.5])
+        own_af = c.pick("own_adjustment_factor", [0.0, 5.0, 20.0, 37.5])  # 0.0: a factor of exactly zero is a factor, not "missing"
         # the market definition may carry no adjustment factor for a runner (late entry): its bets still stand and every
         # order after it in the blotter still gets the reduction
         own_missing = c.choose("own_adjustment_factor_missing", [False, True]) if b_kind.startswith("MOC-LAY") and mtype == "WIN" else False
